@@ -43,7 +43,8 @@ Judge(e) ==
          GD  == {<<B!Norm(g.edges[k].a, g.edges[k].b)[1], B!Norm(g.edges[k].a, g.edges[k].b)[2], g.edges[k].d2>> :
                   k \in {x \in DOMAIN g.edges : g.edges[x].hasd}}
          GO  == {B!Norm(g.edges[k].a, g.edges[k].b) : k \in {x \in DOMAIN g.edges : g.edges[x].old}}
-     IN IF B!OpEdges(s) # o.edges \/ B!OpDistAttr(s) # o.dist THEN "operational-differs-from-declarative"
+         op  == B!OpOut(s)
+     IN IF op.edges # o.edges \/ op.dist # o.dist THEN "operational-differs-from-declarative"
         ELSE IF g.err THEN "exception"
         ELSE IF SumLen(g.mols) # Len(s.atoms) \/ UNION GM # B!Idx(s) THEN "atoms-not-partitioned"
         ELSE IF \E R \in B!Residues(s, B!SPEC) : ~\E M \in GM : R \subseteq M THEN "residue-split"
@@ -65,14 +66,19 @@ Judge(e) ==
 
 Info(e) ==
   LET s == e.sys IN
-  IF ~B!WellFormed(s) \/ B!AnyNear(s) THEN [sens |-> {}, failing |-> {}, sole |-> <<>>, nbond |-> 0, nmol |-> 0]
-  ELSE [sens    |-> B!Sensitive(s),
-        failing |-> IF e.focus.a > 0 THEN B!Failing(s, B!Norm(e.focus.a, e.focus.b)) ELSE {},
-        \* pairs per "sole failing conjunct" class (only meaningful when distances are allowed)
-        sole    |-> IF s.dist THEN [c \in B!ConjNames |-> Cardinality({p \in B!Pairs(s) : B!Failing(s, p) = {c}})]
-                    ELSE [c \in B!ConjNames |-> 0],
-        nbond   |-> Cardinality(B!DistEdges(s, B!SPEC)),
-        nmol    |-> Cardinality(B!Molecules(s, B!SPEC))]
+  IF ~B!WellFormed(s) \/ B!AnyNear(s) THEN [sens |-> {}, sensE |-> {}, failing |-> {}, sole |-> <<>>, nbond |-> 0, nmol |-> 0]
+  ELSE LET o  == B!Out(s, B!SPEC)
+           vo == [v \in B!Variants |-> B!Out(s, v)]
+           NE == B!NonEdges(s, B!SPEC)
+           Bd == B!OldE(s, B!SPEC) \cup B!NameEdges(s, B!SPEC)
+           F  == [p \in B!Pairs(s) |-> B!FailingGiven(s, p, NE, Bd)]
+       IN [sens    |-> {v \in B!Variants : vo[v] # o},                                   \* result differs
+           sensE   |-> {v \in B!Variants : vo[v].edges # o.edges \/ vo[v].dist # o.dist},  \* bonds differ
+           failing |-> IF e.focus.a > 0 THEN F[B!Norm(e.focus.a, e.focus.b)] ELSE {},
+           \* pairs per "sole failing conjunct" class (only meaningful when distances are allowed)
+           sole    |-> [c \in B!ConjNames |-> IF s.dist THEN Cardinality({p \in B!Pairs(s) : F[p] = {c}}) ELSE 0],
+           nbond   |-> Cardinality(o.edges \ Bd),
+           nmol    |-> Cardinality(o.mols)]
 
 Init == tid \in 1..Len(Batch) /\ verdict = "pending" /\ info = <<>>
 Eval == /\ verdict = "pending"
